@@ -563,6 +563,49 @@ def check_c08(opts):
             evals += 1
             if got != exp:
                 fails.append({'case_id': f'plain-branch:{bname}:{items}', 'branches': [bname, 'count'], 'join': 'zip', 'mode': 'plain (cold synchronous source)', 'input': items, 'expected': exp, 'got': got})
+    # a branch that completes before the others, in every position: the join goes on until ALL branches have completed (plain observables)
+    for items in ([1, 2, 3, 4],):
+        for pos in (0, 1, 2):
+            mk3 = [lambda: rx.pipe(ops.map(lambda i: i * 2)), lambda: rx.pipe(ops.map(lambda i: i + 100))]
+            mk3.insert(pos, lambda: rx.pipe(ops.take(1)))
+            for join in ('merge', 'combine_latest'):
+                per = [branch_outputs(items, mk) for mk in mk3]
+                exp = []; q = [None] * 3
+                for step in range(len(items) + 1):
+                    for bi in range(3):
+                        for v in per[bi][step]:
+                            if join == 'merge': exp.append(v)
+                            else:
+                                q[bi] = v; exp.append(tuple(q))
+                got = run_plain(items, rs.ops.tee_map(*[mk() for mk in mk3], join=join))
+                evals += 1
+                if got != exp:
+                    fails.append({'branches': f'take(1) as branch {pos} of 3', 'join': join, 'mode': 'plain', 'input': items, 'expected': exp, 'got': got})
+    # a hot multiplexed source (raw mux events on a Subject): a first subscriber that is disposed does not prevent a second one from getting the join
+    # of what is emitted from then on (works today on plain and multiplexed sources alike; rxsci/mux/muxconnectable.py)
+    from rx.subject import Subject as _Subject
+    for join in ('zip', 'merge', 'combine_latest'):
+        def scenario(reuse):
+            subj = _Subject()
+            tee = subj.pipe(rs.cast_as_mux_observable(), rs.ops.tee_map(rs.ops.map(lambda i: i * 2), rs.ops.filter(lambda i: i % 2 == 1), join=join))
+            def life(vals):
+                got = []
+                d = tee.subscribe(on_next=lambda e: got.append(e.item) if type(e) is rs.OnNextMux else None, on_error=lambda e: got.append(repr(e)))
+                subj.on_next(rs.OnCreateMux((0,)))
+                for v in vals: subj.on_next(rs.OnNextMux((0,), v))
+                subj.on_next(rs.OnCompletedMux((0,)))
+                d.dispose()
+                return got
+            if reuse:
+                life([1, 2])
+            return life([3, 4])
+        try:
+            fresh, second = scenario(False), scenario(True)
+        except Exception as ex:
+            fresh, second = 'exception', repr(ex)[:200]
+        evals += 1
+        if second != fresh:
+            fails.append({'scenario': f'raw mux Subject, tee_map(map(*2), filter(odd), join={join}): subscribe, dispose, subscribe again', 'expected for the second subscriber (as a fresh pipeline)': fresh, 'got': second})
     # the join state of a key does not outlive the key: tee_map inside tumbling windows / segments == tee_map run on each window alone
     ub = [('even', branches[1][1]), ('gt2', branches[5][1]), ('pos_first', lambda: rx.pipe(rs.ops.filter(lambda i: i > 0), rs.ops.first())),
           ('count_reduce', lambda: rx.pipe(rs.ops.count(reduce=True))), ('id', branches[0][1])]
@@ -719,6 +762,10 @@ def check_c10(opts):
             pe = (value if value is not None else (items[-1] if items else None))
             chk(f'pad_end({size},{value})', run_mux(items, rs.data.pad_end(size, value)), (items + [pe] * size) if items else [], items)
         chk('start_with', run_mux(items, rs.ops.start_with((8, 9))), ([8, 9] + items) if items else [], items)
+    # distinct: different values with equal hashes (hash(-1) == hash(-2), hash(0) == hash(''), hash(2**61 - 1) == hash(0)), equal values of different types
+    for items in ([3, 2, 1, 0, -1, -2, -3, -1, 2], [-1.0, -2.0, -1, -2], [0, '', 2 ** 61 - 1, 0.0, ''], [(0, -1), (0, -2), (0, -1)], [1, True, 1.0, 2]):
+        chk('distinct', run_mux(items, rs.ops.distinct()), distinct_spec(items), items)
+        chk('distinct(key_mapper)', run_mux([(x,) for x in items], rs.ops.distinct(lambda i: i[0])), [(x,) for x in distinct_spec(items)], items)
     for items in ([], [3, 1, 2], [(1, 'b'), (0, 'a'), (1, 'a'), (0, 'b')], [2, 2, 1, 1]):
         keyf = (lambda i: i[0]) if items and isinstance(items[0], tuple) else (lambda i: i)
         chk('sort', run_plain(items, rs.data.sort(key=keyf)), sorted(items, key=keyf), items)
